@@ -1,24 +1,24 @@
 (* Driver for the extracted model: reads "name <val>" per line on stdin, prints
    "<val>" per line on stdout.  val syntax: decimal = VN, b<hex> = VB of bytes,
    u<n>,<n>,.. = VB of arbitrary numbers, ( v v .. ) = VL. *)
-open Model
+(* no `open Model`: extracted constructor names must not capture ours *)
 
-let rec pos_of_int i = if i = 1 then XH else if i land 1 = 1 then XI (pos_of_int (i lsr 1)) else XO (pos_of_int (i lsr 1))
-let n_of_int i = if i = 0 then N0 else Npos (pos_of_int i)
-let rec int_of_pos = function XH -> 1 | XO p -> 2 * int_of_pos p | XI p -> 2 * int_of_pos p + 1
-let int_of_n = function N0 -> 0 | Npos p -> int_of_pos p
+let rec pos_of_int i = if i = 1 then Model.XH else if i land 1 = 1 then Model.XI (pos_of_int (i lsr 1)) else Model.XO (pos_of_int (i lsr 1))
+let n_of_int i = if i = 0 then Model.N0 else Model.Npos (pos_of_int i)
+let rec int_of_pos = function Model.XH -> 1 | Model.XO p -> 2 * int_of_pos p | Model.XI p -> 2 * int_of_pos p + 1
+let int_of_n = function Model.N0 -> 0 | Model.Npos p -> int_of_pos p
 
 let coq_string (s : Stdlib.String.t) : Model.string =
-  let r = ref EmptyString in
+  let r = ref Model.EmptyString in
   for i = Stdlib.String.length s - 1 downto 0 do
     let c = Char.code s.[i] in
     let b k = (c lsr k) land 1 = 1 in
-    r := String (Ascii (b 0, b 1, b 2, b 3, b 4, b 5, b 6, b 7), !r)
+    r := Model.String (Model.Ascii (b 0, b 1, b 2, b 3, b 4, b 5, b 6, b 7), !r)
   done; !r
 
-exception Parse of Stdlib.String.t
+exception Drv_parse of Stdlib.String.t
 
-let parse (s : Stdlib.String.t) (start : int) : val0 =
+let parse (s : Stdlib.String.t) (start : int)   : Model.val0 =
   let n = Stdlib.String.length s in
   let pos = ref start in
   let skip () = while !pos < n && s.[!pos] = ' ' do incr pos done in
@@ -28,25 +28,25 @@ let parse (s : Stdlib.String.t) (start : int) : val0 =
     Stdlib.String.sub s st (!pos - st) in
   let hexv c = match c with
     | '0'..'9' -> Char.code c - 48 | 'a'..'f' -> Char.code c - 87
-    | _ -> raise (Parse "hex") in
+    | _ -> raise (Drv_parse "hex") in
   let rec value () =
     skip ();
-    if !pos >= n then raise (Parse "eof");
+    if !pos >= n then raise (Drv_parse "eof");
     if s.[!pos] = '(' then begin
       incr pos;
       let items = ref [] in
       let fin = ref false in
       while not !fin do
         skip ();
-        if !pos >= n then raise (Parse "eof in list");
+        if !pos >= n then raise (Drv_parse "eof in list");
         if s.[!pos] = ')' then (incr pos; fin := true)
         else items := value () :: !items
       done;
-      VL (List.rev !items)
+      Model.VL (List.rev !items)
     end else begin
       let t = token () in
       let l = Stdlib.String.length t in
-      if l = 0 then raise (Parse "empty token");
+      if l = 0 then raise (Drv_parse "empty token");
       if t.[0] = 'b' then begin
         let out = ref [] in
         let i = ref (l - 2) in
@@ -54,19 +54,19 @@ let parse (s : Stdlib.String.t) (start : int) : val0 =
           out := n_of_int (hexv t.[!i] * 16 + hexv t.[!i + 1]) :: !out;
           i := !i - 2
         done;
-        VB !out
+        Model.VB !out
       end else if t.[0] = 'u' then begin
-        if l = 1 then VB [] else
-        VB (List.map (fun x -> n_of_int (int_of_string x))
+        if l = 1 then Model.VB [] else
+        Model.VB (List.map (fun x -> n_of_int (int_of_string x))
               (Stdlib.String.split_on_char ',' (Stdlib.String.sub t 1 (l - 1))))
-      end else VN (n_of_int (int_of_string t))
+      end else Model.VN (n_of_int (int_of_string t))
     end in
   value ()
 
-let rec print buf (v : val0) =
+let rec print buf (v   : Model.val0) =
   match v with
-  | VN x -> Buffer.add_string buf (string_of_int (int_of_n x))
-  | VB l ->
+  | Model.VN x -> Buffer.add_string buf (string_of_int (int_of_n x))
+  | Model.VB l ->
     let il = List.map int_of_n l in
     if List.for_all (fun x -> x < 256) il then begin
       Buffer.add_char buf 'b';
@@ -75,7 +75,7 @@ let rec print buf (v : val0) =
       Buffer.add_char buf 'u';
       Buffer.add_string buf (Stdlib.String.concat "," (List.map string_of_int il))
     end
-  | VL l ->
+  | Model.VL l ->
     Buffer.add_char buf '(';
     List.iteri (fun i x -> if i > 0 then Buffer.add_char buf ' '; print buf x) l;
     Buffer.add_char buf ')'
@@ -90,9 +90,9 @@ let () =
       Buffer.clear buf;
       (try
         let v = parse line sp in
-        print buf (sv_run_entry (coq_string name) v)
+        print buf (Model.sv_run_entry (coq_string name) v)
       with
-      | Parse m -> Buffer.add_string buf ("!parse " ^ m)
+      | Drv_parse m -> Buffer.add_string buf ("!parse " ^ m)
       | Stack_overflow -> Buffer.add_string buf "!stack"
       | Failure m -> Buffer.add_string buf ("!fail " ^ m));
       print_string (Buffer.contents buf); print_newline ()
